@@ -54,7 +54,8 @@ struct Fault {
   bool touch = false;     // overwrite outputs with garbage before failing
   bool by_signal = false; // child killed by SIGINT/SIGTERM/SIGHUP itself -> ExitInterrupted
   bool bad_depfile = false; // the dying tool leaves a depfile that does not parse (a compiler killed half way)
-  bool trim_depfile = false; // ... or one that parses but names the target only (truncated before the first dependency)
+  bool trim_depfile = false;
+  bool depfile_dir = false;  // the tool does its work and exits 0, but where its depfile should be there is a directory (depdir) // ... or one that parses but names the target only (truncated before the first dependency)
 };
 
 struct Event {
@@ -78,6 +79,7 @@ struct RunCmd {
   bool console = false;
   int64_t start_tick = 0, finish_tick = -1;
   int status = -1;                 // exit status once finished
+  int told = -1;                   // >= 0: the status ninja is told, where that is not the whole truth (fault depdir: the tool says 0, its dependency output is unreadable)
   bool finished = false, killed = false, wrote = false;
   bool unreaped = false;           // completed, but ninja gave up the build before it looked at the result (Abort)
   std::vector<std::pair<std::string, std::string>> snapshot;  // what it read at start
